@@ -1406,6 +1406,11 @@ impl<'de, R: Read<'de>> Parser<R> {
         self.scratch.push(b'e');
         self.scratch
             .extend_from_slice(buffer.format(exponent).as_bytes());
+        #[cfg(feature = "verif-hooks")]
+        assert!(
+            str::from_utf8(&self.scratch).is_ok(),
+            "verif-hooks: ill-formed UTF-8 reaches from_utf8_unchecked (f64_from_parts)"
+        );
         // SAFETY: Unsafe should be OK here, as `itoa::Buffer::format()` should
         // never produce non-ASCII output.
         let f: f64 = unsafe { str::from_utf8_unchecked(&self.scratch) }
